@@ -17,6 +17,7 @@ import (
 	"fmt"
 	"math/rand"
 	"sync"
+	"time"
 
 	"github.com/markkurossi/mpc/ot"
 	"github.com/markkurossi/mpc/p2p"
@@ -74,6 +75,7 @@ type iknpPair struct {
 	rIO    *otTap
 	delta  ot.Label
 	sc, rc *p2p.Conn
+	dead   bool // a batch stalled: the connections are held by blocked goroutines
 }
 
 // newIKNPPair initialises one sender/receiver pair over an in-memory connection with CO base OT.
@@ -168,7 +170,11 @@ func runIKNPBatch(res *Result, p *iknpPair, b otBatch, rng *rand.Rand, pat strin
 		wg.Add(2)
 		go func() { defer wg.Done(); sent, es = p.s.Send(n, mal) }()
 		go func() { defer wg.Done(); er = p.r.Receive(flags, recv, mal) }()
-		wg.Wait()
+		if !waitOrStall(&wg, 40*time.Second) {
+			p.dead = true
+			res.viol("stall:iknp:"+b.Mode, "%s n=%d %s: sender and receiver do not both return (each waits for the other)", what, n, pat)
+			return false
+		}
 		if es != nil || er != nil {
 			res.viol("error:iknp:"+b.Mode, "%s n=%d %s: sender %v, receiver %v", what, n, pat, es, er)
 			return false
@@ -203,7 +209,11 @@ func runIKNPBatch(res *Result, p *iknpPair, b otBatch, rng *rand.Rand, pat strin
 		wg.Add(2)
 		go func() { defer wg.Done(); es = p.s.SendBits(n, sbits) }()
 		go func() { defer wg.Done(); er = p.r.ReceiveBits(choices, rbits, n) }()
-		wg.Wait()
+		if !waitOrStall(&wg, 40*time.Second) {
+			p.dead = true
+			res.viol("stall:iknp:bits", "%s n=%d: sender and receiver do not both return (each waits for the other)", what, n)
+			return false
+		}
 		if es != nil || er != nil {
 			res.viol("error:iknp:bits", "%s n=%d: sender %v, receiver %v", what, n, es, er)
 			return false
@@ -308,7 +318,10 @@ func runOTInterface(res *Result, kind string, n int, flags []bool, rng *rand.Ran
 			}
 		}
 	}()
-	wg.Wait()
+	if !waitOrStall(&wg, 40*time.Second) {
+		res.viol("stall:"+kind, "%s OT n=%d: sender and receiver do not both return (each waits for the other)", kind, n)
+		return
+	}
 	if es != nil || er != nil {
 		res.viol("error:"+kind, "%s OT n=%d: sender %v, receiver %v", kind, n, es, er)
 		return
@@ -407,8 +420,10 @@ func c06Main(args []string) error {
 				break
 			}
 		}
-		p.sc.Close()
-		p.rc.Close()
+		if !p.dead {
+			p.sc.Close()
+			p.rc.Close()
+		}
 		res.Class = "iknp"
 		if idx < 2 {
 			res.Sample = oc
